@@ -12,7 +12,8 @@ Mirrors
                               `getLevel1Key`, epoch of a secret value,
 * `pkg/drkey/drkey.go`      — the byte string handed to the KDF by `DeriveSV`,
 * `private/drkey/drkeyutil/provider.go` + `pkg/spao/timestamp.go` —
-                              `FakeProvider.GetKeyWithinAcceptanceWindow`.
+                              `FakeProvider.GetKeyWithinAcceptanceWindow`, `RelativeTimestamp`,
+                              `AbsoluteTimestamp`.
 
 Host addresses enter the model in the form produced by `addr.ParseHost` + `slayers.PackAddr`
 (4-bit type/length nibble and raw bytes); the text parser is Go's. -/
@@ -235,6 +236,12 @@ def toInt64 (u : Nat) : Int := if u < 9223372036854775808 then (u : Int) else (u
 
 /-- `spao.AbsoluteTimestamp(epoch, relTime)` in Unix nanoseconds -/
 def absTime (epochBegin : Nat) (ts : Nat) : Int := (epochBegin : Int) * nsPerSec + toInt64 ts
+
+/-- `spao.RelativeTimestamp(epoch, t)`: nanoseconds from the epoch's begin to `t`, converted to
+    `uint64`; `none` = "relative timestamp is bigger than 2^48-1" -/
+def relTimestamp (epochBegin : Nat) (tNs : Int) : Option Nat :=
+  let r := tNs - (epochBegin : Int) * nsPerSec
+  if r ≥ 281474976710656 then none else some (r % 18446744073709551616).toNat
 
 /-- `cppki.Validity.Contains`: closed interval -/
 def contains (lo hi x : Int) : Bool := decide (lo ≤ x) && decide (x ≤ hi)
